@@ -1,5 +1,427 @@
 import QModel.Core
-/-! C10 — model (not built yet) -/
+/-!
+# C10 — constrained estimators (model)
+
+Mirrors, as they are:
+* `ProjectedGradientDescent.set_constraint_from_standard_qt_and_option` (projected_gradient_descent.py:165-222): which
+  projection is installed for which flag combination, including the early return when a projection is already installed
+  and the fact that `QOperation.func_calc_proj_physical_with_var` ignores its `mode_proj_order` argument;
+* `ProjectedLinearEstimator.calc_estimate_sequence` (projected_linear_estimator.py:66-106): linear estimate,
+  `set_mode_proj_order`, `calc_proj_physical`, `to_var`, element by element;
+* `QOperation.calc_proj_physical(_with_var)` (qoperation.py:691-827, 958-1112): Dykstra sweeps with the
+  Birgin–Raydan-2 stopping value, the `k >= 1` guard and the iteration limit;
+* one iteration and the whole loop of `ProjectedGradientDescentBacktracking.optimize`
+  (projected_gradient_descent_backtracking.py:229-356), `ProjectedGradientDescentWithMomentum.optimize`
+  (…with_momentum.py:232-330) and `ProjectedFastIterativeShrinkageThresholdingAlgorithm.optimize` (…algorithm.py:196-290).
+
+Everything numeric is generic: `K` scalars, `V` vectors (any types with the core classes used), the loss value `f`, its
+gradient `grad`, the Euclidean `dot`, `sqrt`, and the projection `proj` are parameters.  The driver instantiates
+`K = Rat`, `V = Vec Rat n`, the identity-weight squared-error loss `f x = ‖A x + c‖²`; the theorems instantiate real
+vector / inner-product spaces.
+-/
 namespace QM.C10
-def handle (_args : List String) : Option String := none
+
+/-! ## constraint selection table -/
+
+inductive Order | eqIneq | ineqEq
+deriving Repr, DecidableEq
+
+def Order.toString : Order → String
+  | .eqIneq => "eq_ineq" | .ineqEq => "ineq_eq"
+
+/-- the closure stored in `ProjectedGradientDescent._func_proj`, by what it computes -/
+inductive ProjSel
+  /-- `setting_info.calc_proj_physical_with_var(var, on_para_eq_constraint, max_iteration)` run with the order `order` -/
+  | physical (onPara : Bool) (order : Order) (maxIter : Option Nat)
+  /-- `calc_proj_eq_constraint_with_var(c_sys, var, on_para_eq_constraint)` -/
+  | eqOnly (onPara : Bool)
+  /-- `calc_proj_ineq_constraint_with_var(c_sys, var, on_para_eq_constraint, eps_truncate_imaginary_part)` -/
+  | ineqOnly (onPara : Bool)
+  /-- `func_proj.proj_to_self()` -/
+  | toSelf
+deriving Repr, DecidableEq
+
+/-- what the algorithm reads from `qt.generate_empty_estimation_obj_with_setting_info()` -/
+structure SettingInfo where
+  onPara : Bool
+  order : Order
+deriving Repr, DecidableEq
+
+/-- the fields of `ProjectedGradientDescentOption` read by the selection -/
+structure AlgoOpt where
+  onAlgoEq : Bool
+  onAlgoIneq : Bool
+  order : Order
+  maxIterProj : Option Nat
+deriving Repr, DecidableEq
+
+/-- `QOperation.func_calc_proj_physical_with_var(on_para_eq_constraint, mode_proj_order, max_iteration)`
+(qoperation.py:1114-1131).  The closure calls `self.calc_proj_physical_with_var(var, on_para_eq_constraint, max_iteration)`,
+which reads `self.mode_proj_order`; the `mode_proj_order` *argument* is not used. -/
+def funcCalcProjPhysicalWithVar (self : SettingInfo) (onPara : Bool) (_modeProjOrder : Order)
+    (maxIter : Option Nat) : ProjSel :=
+  .physical onPara self.order maxIter
+
+/-- `set_constraint_from_standard_qt_and_option`: `cur` is `self._func_proj` before the call, the result is
+`self._func_proj` after it. -/
+def setConstraint (cur : Option ProjSel) (si : SettingInfo) (opt : AlgoOpt) : ProjSel :=
+  match cur with
+  | some p => p                       -- `if self._func_proj is not None: return`
+  | none =>
+    if opt.onAlgoEq == true && opt.onAlgoIneq == true then
+      funcCalcProjPhysicalWithVar si si.onPara opt.order opt.maxIterProj
+    else if opt.onAlgoEq == true && opt.onAlgoIneq == false then .eqOnly si.onPara
+    else if opt.onAlgoEq == false && opt.onAlgoIneq == true then .ineqOnly si.onPara
+    else .toSelf
+
+def ProjSel.toString : ProjSel → String
+  | .physical p o m => s!"physical {p} {o.toString} {match m with | some k => ToString.toString k | none => "none"}"
+  | .eqOnly p => s!"eq {p}"
+  | .ineqOnly p => s!"ineq {p}"
+  | .toSelf => "self"
+
+/-! ## projected linear estimator -/
+
+/-- `ProjectedLinearEstimator.calc_estimate_sequence`: `linear` is `LinearEstimator.calc_estimate_sequence` followed by
+`estimated_qoperation_sequence` (one object per data set), `setOrder` is `set_mode_proj_order`, `projPhysical` is
+`calc_proj_physical()` (default `max_iteration`), `toVar` is `to_var`. -/
+def pleSequence {D O W : Type} (linear : List D → List O) (setOrder : Order → O → O) (projPhysical : O → O)
+    (toVar : O → W) (order : Order) (seq : List D) : List W :=
+  (linear seq).map fun o => toVar (projPhysical (setOrder order o))
+
+/-! ## physical projection: Dykstra sweeps with the Birgin–Raydan-2 stopping value -/
+
+section dykstra
+variable {K V : Type} [Add V] [Sub V] [Add K] [LT K] [DecidableLT K]
+
+structure DykState (V : Type) where
+  x : V
+  p : V
+  q : V
+  /-- `y_next` of the sweep that produced this state -/
+  y : V
+
+/-- one pass of the loop body; `P1` is the projection applied first (equality constraint for `eq_ineq`) -/
+def dykSweep (P1 P2 : V → V) (s : DykState V) : DykState V :=
+  let y := P1 (s.x + s.p)
+  let p' := s.x + s.p - y
+  let x' := P2 (y + s.q)
+  let q' := y + s.q - x'
+  ⟨x', p', q', y⟩
+
+/-- `_calc_stopping_criterion_birgin_raydan2_vectors`: `np.sum((p_prev - p_next)**2 + (q_prev - q_next)**2)` -/
+def brValue (normSq : V → K) (s s' : DykState V) : K := normSq (s.p - s'.p) + normSq (s.q - s'.q)
+
+/-- `for k in range(max_iteration)`: sweep; `if k >= 1`: stop when the value is `< eps`.  `fuel` = iterations left.
+Returns the state after the last executed sweep and whether the stopping criterion (rather than the limit) ended it. -/
+def dykLoop (P1 P2 : V → V) (normSq : V → K) (eps : K) : Nat → Nat → DykState V → DykState V × Bool
+  | 0, _, s => (s, false)
+  | fuel + 1, k, s =>
+    let s' := dykSweep P1 P2 s
+    if 1 ≤ k ∧ brValue normSq s s' < eps then (s', true) else
+      match fuel with
+      | 0 => (s', false)
+      | _ => dykLoop P1 P2 normSq eps fuel (k + 1) s'
+
+/-- `calc_proj_physical_with_var` on stacked vectors: `none` when `max_iteration = 0` (Python returns the unset `x_next`).
+`projEq`, `projIneq` are the two constraint projections, `order` decides which is applied first. -/
+def projPhysical (projEq projIneq : V → V) (order : Order) (normSq : V → K) (eps : K) (maxIter : Nat) (zero : V)
+    (x0 : V) : Option (V × Bool) :=
+  if maxIter = 0 then none else
+    let (P1, P2) := match order with
+      | .eqIneq => (projEq, projIneq)
+      | .ineqEq => (projIneq, projEq)
+    let r := dykLoop P1 P2 normSq eps maxIter 0 ⟨x0, zero, zero, x0⟩
+    some (r.1.x, r.2)
+end dykstra
+
+/-! ## projected-gradient algorithms -/
+
+inductive StopMode
+  | singleDiffLoss | sumAbsDiffLoss | sumAbsDiffVar | sumAbsDiffProjGrad
+deriving Repr, DecidableEq
+
+def StopMode.ofString? : String → Option StopMode
+  | "single_difference_loss" => some .singleDiffLoss
+  | "sum_absolute_difference_loss" => some .sumAbsDiffLoss
+  | "sum_absolute_difference_variable" => some .sumAbsDiffVar
+  | "sum_absolute_difference_projected_gradient" => some .sumAbsDiffProjGrad
+  | _ => none
+
+section pgd
+variable {K V : Type} [Add V] [Sub V] [SMul K V]
+  [Add K] [Sub K] [Mul K] [Div K] [Neg K] [Zero K] [One K] [LT K] [DecidableLT K]
+
+/-- `error_value` of one iteration.  `pgVec` is the vector whose norm the fourth mode takes: `y_prev` in the backtracking
+algorithm, `x_next` (sic) in the momentum and FISTA algorithms. -/
+def errorValue (mode : StopMode) (f : V → K) (sqrt : K → K) (normSq : V → K) (xPrev xNext pgVec : V) : K :=
+  match mode with
+  | .singleDiffLoss => f xPrev - f xNext
+  | .sumAbsDiffLoss => let d := f xPrev - f xNext; if d < 0 then -d else d
+  | .sumAbsDiffVar => sqrt (normSq (xPrev - xNext))
+  | .sumAbsDiffProjGrad => sqrt (normSq pgVec)
+
+/-- `np.sum(error_values[-sum_range:])`, `sum_range = min(len(error_values), num_history)`; `errs` in append order -/
+def windowSum (errs : List K) (numHist : Nat) : K :=
+  lsum (errs.drop (errs.length - min errs.length numHist))
+
+/-- `is_doing = True if value > eps else False` -/
+def isDoing (errs : List K) (numHist : Nat) (eps : K) : Bool := eps < windowSum errs numHist
+
+/-! ### backtracking -/
+
+/-- `y_prev = func_proj(x_prev - gradient(x_prev) / mu) - x_prev` -/
+def pgdbDir (proj grad : V → V) (mu : K) (x : V) : V := proj (x - (1 / mu) • grad x) - x
+
+/-- `_is_doing_for_alpha`: `value(x + alpha*y) > value(x) + gamma*alpha*dot(y, gradient(x))` -/
+def isDoingForAlpha (f : V → K) (grad : V → V) (dot : V → V → K) (x y : V) (alpha gamma : K) : Bool :=
+  f x + gamma * alpha * dot y (grad x) < f (x + alpha • y)
+
+/-- `alpha = 1.0; while _is_doing_for_alpha(...): alpha = 0.5 * alpha`, from the current `alpha` with `fuel` loop tests
+left; `none` = the loop did not end within `fuel` tests. -/
+def backtrack (f : V → K) (grad : V → V) (dot : V → V → K) (x y : V) (gamma : K) : Nat → K → Option K
+  | 0, _ => none
+  | fuel + 1, alpha =>
+    if isDoingForAlpha f grad dot x y alpha gamma then backtrack f grad dot x y gamma fuel ((1 / (1 + 1)) * alpha)
+    else some alpha
+
+/-- data of one iteration of the backtracking algorithm -/
+structure PgdbIter (K V : Type) where
+  y : V
+  alpha : K
+  xNext : V
+  err : K
+
+/-- the loop body up to `error_values.append(error_value)` -/
+def pgdbStep (proj : V → V) (f : V → K) (grad : V → V) (dot : V → V → K) (sqrt : K → K) (mu gamma : K)
+    (mode : StopMode) (btFuel : Nat) (x : V) : Option (PgdbIter K V) :=
+  let y := pgdbDir proj grad mu x
+  match backtrack f grad dot x y gamma btFuel 1 with
+  | none => none
+  | some alpha =>
+    let xNext := x + alpha • y
+    some ⟨y, alpha, xNext, errorValue mode f sqrt (fun v => dot v v) x xNext y⟩
+
+/-- `for k in range(1, max_iteration + 1)`: `fuel` iterations left, `x` the current point (`x_prev` after the shift),
+`errs` the error values so far, `xs` the points visited so far (most recent first).  Returns all points visited, most
+recent first (head = the returned `x_next`), and the error values; `none` when a line search did not end. -/
+def pgdbLoop (proj : V → V) (f : V → K) (grad : V → V) (dot : V → V → K) (sqrt : K → K) (mu gamma eps : K)
+    (mode : StopMode) (numHist btFuel : Nat) : Nat → V → List K → List V → Option (List V × List K)
+  | 0, _, errs, xs => some (xs, errs)
+  | fuel + 1, x, errs, xs =>
+    match pgdbStep proj f grad dot sqrt mu gamma mode btFuel x with
+    | none => none
+    | some it =>
+      let errs' := errs ++ [it.err]
+      if isDoing errs' numHist eps then
+        pgdbLoop proj f grad dot sqrt mu gamma eps mode numHist btFuel fuel it.xNext errs' (it.xNext :: xs)
+      else some (it.xNext :: xs, errs')
+
+/-- `optimize`: start point, loop, returned value.  `none` models both a line search that never ends and
+`max_iteration = 0` (Python returns `None` as the value). -/
+def pgdbOptimize (proj : V → V) (f : V → K) (grad : V → V) (dot : V → V → K) (sqrt : K → K) (mu gamma eps : K)
+    (mode : StopMode) (numHist btFuel maxIter : Nat) (xStart : V) : Option (V × List V × List K) :=
+  match pgdbLoop proj f grad dot sqrt mu gamma eps mode numHist btFuel maxIter xStart [] [xStart] with
+  | some (x :: xs, errs) => if maxIter = 0 then none else some (x, x :: xs, errs)
+  | _ => none
+
+/-! ### momentum -/
+
+structure PgdmState (K V : Type) where
+  x : V
+  moment : V
+  zeta : K
+  magPrev : Int
+
+/-- loop body of the momentum algorithm. `mag x` is `np.ceil(np.log10(loss.value(x)))`, `c95` the literal `0.95` -/
+def pgdmStep (proj grad : V → V) (mag : V → Int) (gamma c95 : K) (s : PgdmState K V) : PgdmState K V :=
+  let magNext := mag s.x
+  let zeta := if magNext < s.magPrev then 1 - (1 - s.zeta) * c95 else s.zeta
+  let magPrev := if magNext < s.magPrev then magNext else s.magPrev
+  let m := zeta • s.moment - gamma • grad s.x
+  ⟨proj (s.x + m), m, zeta, magPrev⟩
+
+def pgdmLoop (proj : V → V) (f : V → K) (grad : V → V) (dot : V → V → K) (sqrt : K → K) (mag : V → Int)
+    (gamma c95 eps : K) (mode : StopMode) (numHist : Nat) : Nat → PgdmState K V → List K → PgdmState K V × List K
+  | 0, s, errs => (s, errs)
+  | fuel + 1, s, errs =>
+    let s' := pgdmStep proj grad mag gamma c95 s
+    let errs' := errs ++ [errorValue mode f sqrt (fun v => dot v v) s.x s'.x s'.x]
+    if isDoing errs' numHist eps then pgdmLoop proj f grad dot sqrt mag gamma c95 eps mode numHist fuel s' errs'
+    else (s', errs')
+
+/-! ### FISTA -/
+
+/-- loop body of the FISTA variant at iteration `k` (1-based): returns `x_next`; `kcoef k` is `(k - 2) / (k + 1)` -/
+def fistaStep (proj grad : V → V) (delta : K) (kcoef : Nat → K) (k : Nat) (xPrev xPrevPrev : V) : V :=
+  proj (xPrev + kcoef k • (xPrev - xPrevPrev) - delta • grad xPrev)
+
+/-- state: iteration number `k`, `x_prev`, `x_prev_prev` -/
+def fistaLoop (proj : V → V) (f : V → K) (grad : V → V) (dot : V → V → K) (sqrt : K → K) (delta eps : K)
+    (kcoef : Nat → K) (mode : StopMode) (numHist : Nat) : Nat → Nat → V → V → List K → V × List K
+  | 0, _, x, _, errs => (x, errs)
+  | fuel + 1, k, x, xpp, errs =>
+    let xn := fistaStep proj grad delta kcoef k x xpp
+    let errs' := errs ++ [errorValue mode f sqrt (fun v => dot v v) x xn xn]
+    if isDoing errs' numHist eps then fistaLoop proj f grad dot sqrt delta eps kcoef mode numHist fuel (k + 1) xn x errs'
+    else (xn, errs')
+
+end pgd
+
+/-! ## driver instantiation: `K = Rat`, `V = Vec Rat n`, squared-error loss -/
+
+namespace Drv
+
+scoped instance {n : Nat} : Add (Vec Rat n) := ⟨Vec.add⟩
+scoped instance {n : Nat} : Sub (Vec Rat n) := ⟨Vec.sub⟩
+scoped instance {n : Nat} : SMul Rat (Vec Rat n) := ⟨Vec.smul⟩
+
+def toVec (n : Nat) (l : List Rat) : Option (Vec Rat n) :=
+  if h : l.length = n then some ⟨l.toArray, by simp [h]⟩ else none
+
+def toMat (m n : Nat) (l : List Rat) : Option (Mat Rat m n) :=
+  if l.length = m * n then
+    some (Mat.ofFn fun i j => l.getD (i.val * n + j.val) 0)   -- in range by the length test
+  else none
+
+def showVec {n : Nat} (v : Vec Rat n) : String := showList showRat v.toList
+
+/-- rational square root to 20 decimal digits (the implementation's `np.sqrt` is compared at 1e-9) -/
+def ratSqrt (q : Rat) : Rat :=
+  if q ≤ 0 then 0 else
+    let s : Nat := 10 ^ 40
+    mkRat (Nat.sqrt (q.num.toNat * s / q.den)) (10 ^ 20)
+
+/-- identity-weight squared error `f x = ‖A x + c‖²` (`c = b − q`) and its gradient `2 Aᵀ (A x + c)` -/
+def seValue {m n : Nat} (A : Mat Rat m n) (c : Vec Rat m) (x : Vec Rat n) : Rat :=
+  let r := (A.mulVec x).add c
+  r.dot r
+
+def seGrad {m n : Nat} (A : Mat Rat m n) (c : Vec Rat m) (x : Vec Rat n) : Vec Rat n :=
+  Vec.smul 2 (A.transpose.mulVec ((A.mulVec x).add c))
+
+def parseBool? : String → Option Bool
+  | "true" => some true | "false" => some false | _ => none
+
+def parseOrder? : String → Option Order
+  | "eq_ineq" => some .eqIneq | "ineq_eq" => some .ineqEq | _ => none
+
+def parseOptNat? (s : String) : Option (Option Nat) :=
+  if s = "none" then some none else (s.toNat?).map some
+
+/-- symbolic instantiation of `pleSequence`: the reply is the expression the estimator evaluates per data set -/
+def plePlan (order : Order) (n : Nat) : String :=
+  " ".intercalate (pleSequence (D := Nat) (O := String) (W := String)
+    (fun l => l.map fun i => s!"lin:{i}") (fun o x => s!"{x}|order:{o.toString}") (fun x => s!"{x}|proj")
+    (fun x => s!"{x}|var") order (List.range n))
+
+/-- smallest Armijo margin `|rhs − lhs|` over the step sizes tested (the harness skips steps decided by rounding) -/
+def armijoMargin {n : Nat} (f : Vec Rat n → Rat) (grad : Vec Rat n → Vec Rat n) (x y : Vec Rat n) (gamma : Rat) :
+    Nat → Rat → Rat → Rat
+  | 0, _, acc => acc
+  | fuel + 1, alpha, acc =>
+    let d := f x + gamma * alpha * Vec.dot y (grad x) - f (x + alpha • y)
+    let a := if d < 0 then -d else d
+    let acc' := if a < acc then a else acc
+    if isDoingForAlpha f grad Vec.dot x y alpha gamma then armijoMargin f grad x y gamma fuel ((1 / (1 + 1)) * alpha) acc'
+    else acc'
+
+end Drv
+
+open Drv in
+def handle (args : List String) : Option String :=
+  match args with
+  | ["select", cur, siPara, siOrder, eq, ineq, optOrder, maxIter] => do
+      -- cur = "none" | "kept" (some projection already installed: modelled as `.toSelf`, reported as kept)
+      let siPara ← parseBool? siPara
+      let siOrder ← parseOrder? siOrder
+      let eq ← parseBool? eq
+      let ineq ← parseBool? ineq
+      let optOrder ← parseOrder? optOrder
+      let maxIter ← parseOptNat? maxIter
+      let si : SettingInfo := ⟨siPara, siOrder⟩
+      let opt : AlgoOpt := ⟨eq, ineq, optOrder, maxIter⟩
+      match cur with
+      | "none" => some (setConstraint none si opt).toString
+      | "kept" =>
+        -- whatever was installed stays: probe with two different installed values
+        if setConstraint (some .toSelf) si opt = .toSelf ∧ setConstraint (some (.eqOnly true)) si opt = .eqOnly true
+        then some "kept" else some "replaced"
+      | _ => none
+  | ["ple", order, n] => do
+      let order ← parseOrder? order
+      let n ← parseNat? n
+      some (plePlan order n)
+  | ["dyk", n, x, p, q, y, x', eps, k] => do
+      -- one sweep with the two projection results `y = P1(x+p)`, `x' = P2(y+q)` supplied by the implementation
+      let n ← parseNat? n
+      let x ← (parseList? parseRat? x) >>= toVec n
+      let p ← (parseList? parseRat? p) >>= toVec n
+      let q ← (parseList? parseRat? q) >>= toVec n
+      let y ← (parseList? parseRat? y) >>= toVec n
+      let x' ← (parseList? parseRat? x') >>= toVec n
+      let eps ← parseRat? eps
+      let k ← parseNat? k
+      let s : DykState (Vec Rat n) := ⟨x, p, q, y⟩
+      let s' := dykSweep (fun _ => y) (fun _ => x') s
+      let v : Rat := brValue (fun v => Vec.dot v v) s s'
+      -- one loop test at iteration k with fuel 1: stop flag as the loop computes it
+      let r := dykLoop (fun _ => y) (fun _ => x') (fun v => Vec.dot v v) eps 1 k s
+      some s!"{showVec s'.p} {showVec s'.q} {showRat v} {r.2}"
+  | ["pgdb", n, m, A, c, x, mu, gamma, projPt, mode, numHist, eps, errs] => do
+      let n ← parseNat? n
+      let m ← parseNat? m
+      let A ← (parseList? parseRat? A) >>= toMat m n
+      let c ← (parseList? parseRat? c) >>= toVec m
+      let x ← (parseList? parseRat? x) >>= toVec n
+      let mu ← parseRat? mu
+      let gamma ← parseRat? gamma
+      let projPt ← (parseList? parseRat? projPt) >>= toVec n
+      let mode ← StopMode.ofString? mode
+      let numHist ← parseNat? numHist
+      let eps ← parseRat? eps
+      let errs ← parseList? parseRat? errs
+      let f := seValue A c
+      let g := seGrad A c
+      match pgdbStep (fun _ => projPt) f g Vec.dot ratSqrt mu gamma mode 1200 x with
+      | none => some "noalpha"
+      | some it =>
+        let errs' := errs ++ [it.err]
+        let margin := armijoMargin f g x it.y gamma 1200 1 (f x + 1)
+        let arg : Vec Rat n := x - (1 / mu) • g x
+        some s!"{showVec it.y} {showRat it.alpha} {showVec it.xNext} {showRat it.err} {showRat (windowSum errs' numHist)} {isDoing errs' numHist eps} {showRat margin} {showRat (f x)} {showVec arg}"
+  | ["pgdm", n, m, A, c, x, moment, zeta, magPrev, magNext, gamma, c95] => do
+      let n ← parseNat? n
+      let m ← parseNat? m
+      let A ← (parseList? parseRat? A) >>= toMat m n
+      let c ← (parseList? parseRat? c) >>= toVec m
+      let x ← (parseList? parseRat? x) >>= toVec n
+      let moment ← (parseList? parseRat? moment) >>= toVec n
+      let zeta ← parseRat? zeta
+      let magPrev ← parseInt? magPrev
+      let magNext ← parseInt? magNext
+      let gamma ← parseRat? gamma
+      let c95 ← parseRat? c95
+      -- the projection is applied by the harness to the reported argument `x + moment_next`
+      let s' := pgdmStep (K := Rat) (fun z => z) (seGrad A c) (fun _ => magNext) gamma c95 ⟨x, moment, zeta, magPrev⟩
+      some s!"{showVec s'.moment} {showRat s'.zeta} {s'.magPrev} {showVec s'.x}"
+  | ["fista", n, m, A, c, x, xpp, delta, k] => do
+      let n ← parseNat? n
+      let m ← parseNat? m
+      let A ← (parseList? parseRat? A) >>= toMat m n
+      let c ← (parseList? parseRat? c) >>= toVec m
+      let x ← (parseList? parseRat? x) >>= toVec n
+      let xpp ← (parseList? parseRat? xpp) >>= toVec n
+      let delta ← parseRat? delta
+      let k ← parseNat? k
+      let kc : Nat → Rat := fun k => (((k : Int) - 2 : Int) : Rat) / (((k : Int) + 1 : Int) : Rat)
+      some (showVec (fistaStep (K := Rat) (fun z => z) (seGrad A c) delta kc k x xpp))
+  | ["stop", mode, numHist, eps, errs] => do
+      let _ ← StopMode.ofString? mode
+      let numHist ← parseNat? numHist
+      let eps ← parseRat? eps
+      let errs ← parseList? parseRat? errs
+      some s!"{showRat (windowSum errs numHist)} {isDoing errs numHist eps}"
+  | _ => none
+
 end QM.C10
